@@ -2,3 +2,8 @@ import GoImap.Props.C13
 #print axioms GoImap.C13.f21_counterexample
 #print axioms GoImap.C13.f21_repaired_on_that_schedule
 #print axioms GoImap.C13.f26_idle_counterexample
+#print axioms GoImap.C13.tags_unique
+#print axioms GoImap.C13.complete_at_most_once
+#print axioms GoImap.C13.guarded_fields
+#print axioms GoImap.C13.f21_lockset_counterexample
+#print axioms GoImap.C13.f26_enabled_lockset_counterexample
